@@ -89,7 +89,8 @@ theorem run_writeTail (f0 : FileH) (fs : FsState) (buf : List Nat) (w cur : Nat)
       d'.img = d2.img.write (clusterOff fs cur + f0.offset % fs.clusterSize) (buf.take w) ∧
       d'.fs = d2.fs ∧ d'.failAt = d2.failAt ∧ d'.clock = d2.clock ∧
       f'.firstCluster = f2.firstCluster ∧ f'.currentCluster = some cur ∧ f'.offset = f2.offset + w ∧
-      f'.size? = some (if f2.offset + w > sz2 then f2.offset + w else sz2) := by
+      f'.size? = some (if f2.offset + w > sz2 then f2.offset + w else sz2) ∧
+      d'.log = .write (clusterOff fs cur + f0.offset % fs.clusterSize) (buf.take w) :: d2.log := by
   have hdev := hg.cluster_dev hc2 hct
   have hlen : (buf.take w).length = w := by rw [List.length_take]; omega
   unfold writeTail
@@ -109,9 +110,11 @@ theorem run_writeTail (f0 : FileH) (fs : FsState) (buf : List Nat) (w cur : Nat)
     { f2 with offset := f2.offset + w, currentCluster := some cur }
     (didWrite (d2.didSeek (clusterOff fs cur + f0.offset % fs.clusterSize)) (buf.take w)) sz2 hsz2'
   rw [run_bind_ok hu]
-  refine ⟨f', _, rfl, ?_, rfl, rfl, rfl, hf1, hf2, hf3, hf4⟩
-  rw [didWrite_img _ _ hfit']
-  rfl
+  refine ⟨f', _, rfl, ?_, rfl, rfl, rfl, hf1, hf2, hf3, hf4, ?_⟩
+  · rw [didWrite_img _ _ hfit']
+    rfl
+  · rw [didWrite_log _ _ hfit']
+    rfl
 
 /-- the data region after the device write, cluster by cluster: the machine's `putBytes` -/
 theorem data_after_write (fs : FsState) (img img2 img' : Img) (hwf2 : img2.WF) (cur o : Nat) (bs : List Nat)
@@ -178,7 +181,8 @@ theorem write_sim_alloc (f : FileH) (buf : List Nat) (d : Dev)
         (.error .noSpace, absFile d.fs d.img f, tabView d.fs d.img) ∧
       DevStep d d' ∧ absFile d'.fs d'.img f = absFile d.fs d.img f ∧ FileRep d'.fs d'.img f ∧
       InfoOk d'.fs d'.img ∧
-      (∀ q, d'.img.getByte q ≠ d.img.getByte q → q = statusOff d.fs)) ∨
+      (∀ q, d'.img.getByte q ≠ d.img.getByte q → q = statusOff d.fs) ∧
+      (∀ E D : Nat → Prop, Trace d.fs E D d d')) ∨
     (∃ k f' d', run (f.write buf) d = (.ok (k, f'), d') ∧
       ((absFile d.fs d.img f).write (fatAllocator d.fs.totalClusters d.fs.fsInfo.next)
         (tabView d.fs d.img) buf).1 = .ok k ∧
@@ -192,7 +196,10 @@ theorem write_sim_alloc (f : FileH) (buf : List Nat) (d : Dev)
           (clusterOff d.fs c ≤ q ∧ q < clusterOff d.fs c + k)) ∧
       (∀ x, x ∉ fileChain d.fs d.img f → tabView d.fs d.img x ≠ .free →
         tabView d'.fs d'.img x = tabView d.fs d.img x) ∧
-      (∀ x ∈ fileChain d'.fs d'.img f', x ∈ fileChain d.fs d.img f ∨ tabView d.fs d.img x = .free)) := by
+      (∀ x ∈ fileChain d'.fs d'.img f', x ∈ fileChain d.fs d.img f ∨ tabView d.fs d.img x = .free) ∧
+      (∀ E D : Nat → Prop, (∀ x ∈ fileChain d.fs d.img f, E x) →
+        (∀ x, 2 ≤ x → x < d.fs.totalClusters + 2 → tabView d.fs d.img x = .free → E x ∧ D x) →
+        Trace d.fs E D d d')) := by
   obtain ⟨sz, hsz⟩ := hrep.file
   have hinv := hrep.inv
   have hasz : (absFile d.fs d.img f).size = sz := by simp [absFile, hsz]
@@ -251,6 +258,8 @@ theorem write_sim_alloc (f : FileH) (buf : List Nat) (d : Dev)
       rw [htot2, htv2]
       exact ⟨a1, a2, hinv.live p hmem⟩
   have hisdir : f.isDir = false := isDir_of_size? hsz
+  have htr1 : ∀ E D : Nat → Prop, Trace d.fs E D d d1 := setDirtyFlag_trace d d1 hr1 hfa (by
+    have := hg.status_lt; have := hg.fat_dev; omega)
   rw [write_eq, run_bind_ok (run_getFs d), hww, if_neg hw0, run_bind_ok hr1]
   -- the machine's write, unfolded
   have hawrite : ∀ r, (absFile d.fs d.img f).writeCluster (fatAllocator d.fs.totalClusters d.fs.fsInfo.next)
@@ -274,7 +283,7 @@ theorem write_sim_alloc (f : FileH) (buf : List Nat) (d : Dev)
     simp only [fatAllocator]
     cases allocFindV (tabView d.fs d.img) d.fs.fsInfo.next d.fs.totalClusters <;> rfl
   rcases run_allocClusterFs_fine f.currentCluster d2 hfa2 hcd2 hwf2 hg2 hinfo2 hprev with
-    ⟨hnone, d3, hr3, hs3⟩ | ⟨c, d3, hsome, hr3, hst3, hcd3, htv3, hinfo3, hfr3, hfine3⟩
+    ⟨hnone, d3, hr3, hs3⟩ | ⟨c, d3, hsome, hr3, hst3, hcd3, htv3, hinfo3, hfr3, hfine3, htr3⟩
   · -- NotEnoughSpace
     left
     rw [htv2, hnext2, htot2] at hnone
@@ -285,7 +294,8 @@ theorem write_sim_alloc (f : FileH) (buf : List Nat) (d : Dev)
       rw [hisdir, run_bind_error hr3]
     have hstatus := setDirtyFlag_only_status d d1 hr1 hfa (by
       have := hg.status_lt; have := hg.fat_dev; omega) hwf
-    refine ⟨d3, by rw [run_bind_error hsel], ?_, ?_, ?_, ?_, ?_, ?_⟩
+    refine ⟨d3, by rw [run_bind_error hsel], ?_, ?_, ?_, ?_, ?_, ?_,
+      fun E D => (htr1 E D).trans ((Trace.of_sameStore hs2).trans (Trace.of_sameStore hs3))⟩
     rotate_left 5
     · intro q hne
       by_cases hsq : q = statusOff d.fs
@@ -332,9 +342,9 @@ theorem write_sim_alloc (f : FileH) (buf : List Nat) (d : Dev)
       rw [hisdir, run_bind_ok hr3, hf2]
       rfl
     rw [run_bind_ok hsel]
-    obtain ⟨f', d4, hr4, himg4, hfs4, hfa4, hclk4, hf1', hfc', hfo', hfs'⟩ := run_writeTail f d.fs buf w c f2 d3 sz
+    obtain ⟨f', d4, hr4, himg4, hfs4, hfa4, hclk4, hf1', hfc', hfo', hfs', hlog4⟩ := run_writeTail f d.fs buf w c f2 d3 sz
       hg3 hfa3 hc2 hct (Nat.pos_of_ne_zero hw0) hwb.1 (by rw [hm]; omega) hf2sz
-    rw [hm, Nat.add_zero] at himg4
+    rw [hm, Nat.add_zero] at himg4 hlog4
     have hlen : (buf.take w).length = w := by rw [List.length_take]; omega
     -- the chain after the allocation
     have hchain' : ∃ c0, f2.firstCluster = some c0 ∧
@@ -513,7 +523,7 @@ theorem write_sim_alloc (f : FileH) (buf : List Nat) (d : Dev)
           rw [updV_ne _ _ _ _ hpc, updV_same]
     have hstatus := setDirtyFlag_only_status d d1 hr1 hfa (by
       have := hg.status_lt; have := hg.fat_dev; omega) hwf
-    refine ⟨w, f', d4, hr4, by rw [hwrite], ?_, by rw [hwrite]; exact hcore, hrep4, ?_, ⟨c, hsome, ?_⟩, ?_, ?_⟩
+    refine ⟨w, f', d4, hr4, by rw [hwrite], ?_, by rw [hwrite]; exact hcore, hrep4, ?_, ⟨c, hsome, ?_⟩, ?_, ?_, ?_⟩
     rotate_left 2
     · intro q hne
       by_cases hsq : q = statusOff d.fs
@@ -557,6 +567,31 @@ theorem write_sim_alloc (f : FileH) (buf : List Nat) (d : Dev)
       rcases List.mem_append.mp hx with hx | hx
       · exact Or.inl hx
       · simp at hx; exact Or.inr (hx ▸ hcf)
+    · intro E D hE hfree
+      have hEc := hfree c hc2 hct hcf
+      have hprevE : ∀ p, f.currentCluster = some p → E p := by
+        intro p hp
+        have hc := hinv.cur
+        have hc' : f.currentCluster = if f.offset = 0 then none
+            else (fileChain d.fs d.img f)[(f.offset - 1) / d.fs.clusterSize]? := hc
+        rw [hp] at hc'
+        by_cases h0 : f.offset = 0
+        · rw [if_pos h0] at hc'; cases hc'
+        · rw [if_neg h0] at hc'; exact hE p (List.mem_of_getElem? hc'.symm)
+      have hgeo2 : FsGeomEq d.fs d2.fs := by rw [hs2.fs]; exact hs1.geom
+      have ht3 : Trace d.fs E D d2 d3 := by
+        have := htr3 E D hEc.1 hprevE
+        obtain ⟨r, l, i, cl⟩ := this
+        refine ⟨r, l, i, ?_⟩
+        have hsymm : FsGeomEq d2.fs d.fs := by
+          unfold FsGeomEq at hgeo2 ⊢
+          rw [hgeo2]
+        exact cl.frame hsymm
+      have ht4 : Trace d.fs E D d3 d4 := by
+        refine Trace.single hlog4 himg4 (Or.inr (Or.inl ⟨c, hEc.2, hc2, hct, Nat.le_refl _, ?_⟩))
+        show clusterOff d.fs c + (buf.take w).length ≤ _
+        rw [hlen]; omega
+      exact (htr1 E D).trans ((Trace.of_sameStore hs2).trans (ht3.trans ht4))
     · refine hs1.trans ((DevStep.of_sameStore hs2).trans (hst3.trans ⟨hfa4, ?_, ?_, by rw [hfs4]; exact FsGeomEq.refl _,
         hclk4⟩))
       · rw [himg4, Img.write_size]
